@@ -145,6 +145,13 @@ func (session *clientSession) processInput(maxDuration time.Duration) (chan base
 			}
 			session.logger.Debugf("received new: %v", &chunk)
 			session.lastChunk = &chunk
+			// Once stop is requested the buffer saves whatever is left in this channel, oldest first, while the channel stays
+			// readable until drained. Forwarding a chunk received after that point could overtake an older chunk that has just
+			// been saved instead; hand it back as leftover.
+			if session.inputClosed.Peek() {
+				session.logger.Infof("stop requested (normal stage), returning received chunk: %v", &chunk)
+				return session.collectLeftovers(nil, endImmediately), noReconnect
+			}
 
 		case <-maxSessionDurationSignal:
 			session.logger.Info("max session duration reached, stopping to reconnect")
